@@ -3,7 +3,6 @@
 package main
 
 import (
-	"encoding/json"
 	"fmt"
 	"sort"
 
@@ -217,7 +216,7 @@ func c19Run(r *vkit.Run) {
 
 func c19Replay(r *vkit.Run, v vkit.Violation) *vkit.Violation {
 	var in c19Input
-	if err := json.Unmarshal(v.Input, &in); err != nil {
+	if err := vkit.DecodeInput(v, &in); err != nil {
 		r.HarnessError("bad input: %v", err)
 	}
 	return vkit.ReplayOne(r, func() { c19Check(r, in) })
